@@ -232,6 +232,10 @@ def layouts():
     L.append(("comment_column0_after", lambda d, c, desc: ["@{}(lambda x, xs: {})".format(d, c), "<COL0># a comment at column 0"]))
     L.append(("comment_column0_inside", lambda d, c, desc: ["@{}(".format(d), "<COL0># a comment at column 0", "    lambda x, xs: {})".format(c)]))
     L.append(("blank_line_before_def", lambda d, c, desc: ["@{}(lambda x, xs: {})".format(d, c), ""]))
+    # continuation lines that start with identifiers which merely BEGIN like the keywords ending a decorator
+    L.append(("continuation_starts_like_def", lambda d, c, desc: ["@{}(".format(d), "    lambda x, xs:", "    defined(x) and", "    classes_ok(xs) and",
+                                                                  "    async_def_ok(x) and", "    {},".format(c), "    description={!r})".format(desc)]))
+    L.append(("continuation_starts_like_decorator", lambda d, c, desc: ["@{}(".format(d), "    lambda x, xs: (M", "    @M or", "    {}))".format(c)]))
     L.append(("error_kw_after", lambda d, c, desc: ["@{}(lambda x, xs: {}, error=MyErr)".format(d, c)]))
     return L
 
@@ -250,6 +254,13 @@ def render_layout(layout_fn, alias, cond, neighbours, scope, target):
     if is_inv:
         c = c06.to_self(cond)
     deco = layout_fn(alias, c, desc)
+    if any("defined(x)" in ln for ln in deco):
+        c = "defined(x) and classes_ok(xs) and async_def_ok(x) and " + c
+        if is_inv:
+            deco = [ln.replace("defined(x)", "defined(self.x)").replace("classes_ok(xs)", "classes_ok(self.xs)").replace("async_def_ok(x)", "async_def_ok(self.x)") for ln in deco]
+            c = c.replace("defined(x)", "defined(self.x)").replace("classes_ok(xs)", "classes_ok(self.xs)").replace("async_def_ok(x)", "async_def_ok(self.x)")
+    if any("@M or" in ln for ln in deco):
+        c = "(M @ M or " + c + ")"
     if is_inv:
         deco = [ln.replace("lambda x, xs:", "lambda self:") for ln in deco]
     other_i = "@icontract.invariant(lambda self: True)" if is_inv else "@icontract.require(lambda x: True)"
@@ -275,6 +286,8 @@ def render_layout(layout_fn, alias, cond, neighbours, scope, target):
         call = "f(X, XS)"
     block = above + deco + below + tgt
     hdr = ["import functools", "import icontract", "import icontract as ic", "req = icontract.require", "class MyErr(Exception): pass",
+           "def defined(v): return True", "def classes_ok(v): return True", "def async_def_ok(v): return True",
+           "class _M:", "    def __matmul__(self, other): return 0", "    def __repr__(self): return 'M'", "M = _M()",
            "def fw(fn):", "    @functools.wraps(fn)", "    def w(*a, **k):", "        return fn(*a, **k)", "    return w",
            "def RUN(c):", "    try:", "        while True: c.send(None)", "    except StopIteration as s:", "        return s.value", ""]
     ind = {"module": 0, "class": 1, "nested_class": 2, "nested_function": 1}[scope]
@@ -360,7 +373,7 @@ def check_layout(case, acc, lay_by_name):
                 bad = ("location_scope", "{!r} expected {!r}".format(m.group(3), exp_scope))
             else:
                 rest = msg.split("\n", 1)[1]
-                if has_desc and desc in src and not rest.startswith(desc + ": ") and "description" in lname or (lname in ("one_line_desc_pos", "one_line_desc_kw", "body_many_lines", "kw_condition_first", "kw_condition_last", "kw_condition_middle", "kw_multi_line") and not rest.startswith(desc + ": ")):
+                if has_desc and desc in src and not rest.startswith(desc + ": ") and "description" in lname or (lname in ("one_line_desc_pos", "one_line_desc_kw", "body_many_lines", "kw_condition_first", "kw_condition_last", "kw_condition_middle", "kw_multi_line", "continuation_starts_like_def") and not rest.startswith(desc + ": ")):
                     bad = ("description_missing", rest[:120])
                 else:
                     if rest.startswith(desc + ": "):
@@ -370,13 +383,13 @@ def check_layout(case, acc, lay_by_name):
                     for mm in re.finditer(r":(\n|$| )", rest):
                         cand = rest[: mm.start()]
                         try:
-                            tree = ast.parse(cand.strip(), mode="eval")
+                            tree = ast.parse("(" + cand.strip() + ")", mode="eval")
                             got = cand
                             if ast.dump(tree) == ast.dump(ast.parse(ctext, mode="eval")):
                                 break
                         except SyntaxError:
                             continue
-                    if got is None or ast.dump(ast.parse(got.strip(), mode="eval")) != ast.dump(ast.parse(ctext, mode="eval")):
+                    if got is None or ast.dump(ast.parse("(" + got.strip() + ")", mode="eval")) != ast.dump(ast.parse(ctext, mode="eval")):
                         bad = ("condition_text_differs", "reported {!r} for {!r}".format(got, ctext))
         if bad:
             acc.violation(core.Violation(PROP, bad[0], feats, "{}: {}".format(case, bad[1]), spec={"part": "layout", "case": list(case)}, script=src))
